@@ -27,8 +27,9 @@ def make_cmds(rnd, kind, S, params, tier):
         b = max(2, int(params[0]))
     ps = D.gen_prefixes(rnd, S, 30) + boundary_prefixes(rnd, S, b)
     seen, pp = set(), []
+    ps.append(b"")             # every member begins with the empty pattern
     for p in ps:
-        if p and p not in seen:
+        if p not in seen:
             seen.add(p)
             pp.append(p)
     for dn in names:
@@ -54,8 +55,8 @@ def extra_eval(c, io, mo):
     return fails
 
 
-from props import gen_rpdac, gen_rpfc
-CFG = DC.Config("C04", D.PREFIX_KINDS, make_cmds, nsets=(12, 30), big=True, extra_eval=extra_eval, components=[gen_rpdac, gen_rpfc],
+from props import gen_rpdac, gen_rpfc, gen_xbw
+CFG = DC.Config("C04", D.PREFIX_KINDS, make_cmds, nsets=(12, 30), big=True, extra_eval=extra_eval, components=[gen_rpdac, gen_rpfc, gen_xbw],
                 rule="the eight prefix-capable kinds; patterns: prefixes of members (every length up to 3, sampled beyond), members, "
                      "prefix + one byte, longer than every member, before / after all members, bytes occurring nowhere, and "
                      "boundary-directed prefixes whose match range spans 1, 2 or several buckets or ends exactly on a bucket "
@@ -64,5 +65,5 @@ CFG = DC.Config("C04", D.PREFIX_KINDS, make_cmds, nsets=(12, 30), big=True, extr
 
 
 def check(run, tier, seed, replay):
-    run.assumptions = ["kinds other than PFC: specification theorems + correspondence only"]
+    run.assumptions = ["HTFC/HHTFC/RPHTFC and XBW: specification theorems + correspondence only; RPFC, RPDAC, FM-index: theorems hold for every object certified by its verified checker (run in the component correspondence)"]
     DC.run(run, CFG, tier, seed, replay)
